@@ -32,7 +32,8 @@ int ctl_nonce(unsigned char *nonce32, const unsigned char *msg32, const unsigned
 
 struct SwapSim {
     const Plan &p; Result &r; Net net;
-    secp256k1_context *ctx = nullptr;
+    secp256k1_context *ctx = nullptr;     // Alice's context
+    secp256k1_context *bctx = nullptr;    // Bob's context (artifacts cross between differently configured contexts)
     uint64_t inseed = 0, draw = 0;
     int k = 1; bool bob_static = false;
     struct S {
@@ -105,7 +106,7 @@ struct SwapSim {
         if (m.bytes.size() != 162) { r.probe("adaptor_wrong_length_dropped"); return; }
         Buf in(m.bytes.data(), 162);
         MonMark mk = mon_mark();
-        int v = L01(secp256k1_ecdsa_adaptor_verify(frugal_ctx(bob_static, ctx, "secp256k1_ecdsa_adaptor_verify"), in.p(), &w.X, w.msg, &w.Y));
+        int v = L01(secp256k1_ecdsa_adaptor_verify(frugal_ctx(bob_static, bctx, "secp256k1_ecdsa_adaptor_verify"), in.p(), &w.X, w.msg, &w.Y));
         r.cmp();
         if (!mon_quiet_since(mk)) { r.violate("C14", "callback", "secp256k1_ecdsa_adaptor_verify", "callback on received bytes: " + g_mon.last_illegal); return; }
         // genuine: the bytes are an adaptor signature Alice made for exactly this (X, msg, Y) - possibly in a twin swap with identical parameters
@@ -121,14 +122,14 @@ struct SwapSim {
         if (kf) { memset(dk, (kf->arg(1) & 1) ? 0xff : 0x00, 32); erased = true; r.fault("key_record_erased"); }
         secp256k1_ecdsa_signature sig; uint8_t sb[64];
         mk = mon_mark();
-        int d = L01(secp256k1_ecdsa_adaptor_decrypt(frugal_ctx(bob_static, ctx, "secp256k1_ecdsa_adaptor_decrypt"), &sig, dk, in.p()));
-        L01(secp256k1_ecdsa_signature_serialize_compact(ctx, sb, &sig));
+        int d = L01(secp256k1_ecdsa_adaptor_decrypt(frugal_ctx(bob_static, bctx, "secp256k1_ecdsa_adaptor_decrypt"), &sig, dk, in.p()));
+        L01(secp256k1_ecdsa_signature_serialize_compact(bctx, sb, &sig));
         r.cmp();
         if (!mon_quiet_since(mk)) { r.violate("C14", "callback", "secp256k1_ecdsa_adaptor_decrypt", "callback"); return; }
         if ((d != 0) == erased) { r.violate("C14", "decrypt_result", "secp256k1_ecdsa_adaptor_decrypt", std::string("decrypt returned ") + std::to_string(d) + (erased ? " with an invalid decryption key" : " with the right key")); return; }
         if (!d) { bool z = true; for (int i = 0; i < 64; i++) if (sb[i]) z = false; if (!z) { r.violate("C14", "decrypt_not_zeroed", "secp256k1_ecdsa_adaptor_decrypt", "failed decrypt left a non-zero signature"); return; } r.probe("decrypt_failed_zeroed"); return; }
         // the decrypted signature is a valid low-S ECDSA signature for Alice's key (library and model)
-        int lv = L01(secp256k1_ecdsa_verify(frugal_ctx(bob_static, ctx, "secp256k1_ecdsa_verify"), &sig, w.msg, &w.X));
+        int lv = L01(secp256k1_ecdsa_verify(frugal_ctx(bob_static, bctx, "secp256k1_ecdsa_verify"), &sig, w.msg, &w.X));
         bool mv = ref::ecdsa_verify(w.Xpt, w.msg, sb, sb + 32);
         r.cmp();
         if (!lv || !mv) { r.violate("C14", "decrypted_invalid", "secp256k1_ecdsa_adaptor_decrypt", "decrypted signature is not a valid low-S ECDSA signature (library " + std::to_string(lv) + ", model " + std::to_string(mv) + ")"); return; }
@@ -169,6 +170,9 @@ struct SwapSim {
         bob_static = p.c("bob_static"); if (bob_static) r.fault("bob_uses_static_context");
         ctx = L(secp256k1_context_create(SECP256K1_CONTEXT_NONE));
         if (p.c("rand_ctx")) { uint8_t s[32]; fresh32(s); (void)L(secp256k1_context_randomize(ctx, s)); }
+        bctx = L(secp256k1_context_create(SECP256K1_CONTEXT_NONE));
+        if (p.c("comp_a")) { L(secp256k1_context_set_sha256_compression(ctx, sim_model_compression)); r.fault("alice_replaced_compression"); }
+        if (p.c("comp_b")) { L(secp256k1_context_set_sha256_compression(bctx, sim_model_compression)); r.fault("bob_replaced_compression"); }
         sw.resize(k);
         for (int i = 0; i < k; i++) {
             S &w = sw[i];
@@ -215,7 +219,7 @@ struct SwapSim {
         }
         cleanup();
     }
-    void cleanup() { if (ctx) L(secp256k1_context_destroy(ctx)); ctx = nullptr; monitors_epilogue(r, r.expected_illegal, r.expected_error); }
+    void cleanup() { if (ctx) L(secp256k1_context_destroy(ctx)); ctx = nullptr; if (bctx) L(secp256k1_context_destroy(bctx)); bctx = nullptr; monitors_epilogue(r, r.expected_illegal, r.expected_error); }
 };
 
 }  // namespace
@@ -225,7 +229,7 @@ static Plan swap_generate(uint64_t seed, int) {
     Plan p;
     p.cfg["inseed"] = (int64_t)(g.next() >> 1);
     int k = (int)g.range(1, 4);
-    p.cfg["swaps"] = k; p.cfg["rand_ctx"] = (int64_t)g.below(2); p.cfg["bob_static"] = g.chance(1, 3);
+    p.cfg["swaps"] = k; p.cfg["rand_ctx"] = (int64_t)g.below(2); p.cfg["bob_static"] = g.chance(1, 3); p.cfg["comp_a"] = g.chance(1, 4); p.cfg["comp_b"] = g.chance(1, 4);
     for (int i = 0; i < k; i++) {
         if (g.chance(1, 3)) { Op o; o.k = "class"; o.a = {i, (int64_t)g.below(4), (int64_t)g.below(4)}; p.ops.push_back(o); }
         if (g.chance(1, 4)) { Op o; o.k = "noncefault"; o.a = {i, (int64_t)g.below(4), (int64_t)g.below(2), (int64_t)g.below(2)}; p.ops.push_back(o); }
